@@ -6,7 +6,9 @@ SPEC = {
     "rule": "wip",
     "codes": {1: "model_eq_impl (C08 codecs)",
               10: "pb_roundtrip (stored protobuf form of a well-formed pin)",
-              11: "pb_decode_total (a decoded stored form is re-encodable and stable)"},
+              11: "pb_decode_total (a decoded stored form is re-encodable and stable)",
+              12: "query_roundtrip (ToQuery / FromQuery of well-formed options)",
+              13: "query_decode_stable (options decoded from a query re-encode to themselves)"},
     "tags": {},
     "trusted": [],
     "level_text": "wip",
